@@ -189,6 +189,9 @@ class World:
         self.dir = os.path.join(core.home_dir(), "kd")
         self.path = os.path.join(self.dir, "app.key")
         self.names = [self.path if i % 2 == 0 else "~/kd/app.key" for i in range(nobj)]
+        if not aes:
+            import pathlib
+            self.names[0] = pathlib.Path(self.path)        # a path object instead of a string (the one-object jobs)
         import shutil
         shutil.rmtree(self.dir, ignore_errors=True)
         os.makedirs(self.dir)
